@@ -320,12 +320,17 @@ CLAIMED = {
              "the EOF hand-over graph, EXTRACTED from html5parser.py by a conservative inter-procedural walk on "
              "every run, is acyclic with chains of at most 7 phases, so the EOF loop terminates and its anti-cycle "
              "assertion is dead; every phase that can be current has a processEOF; generateImpliedEndTags pops "
-             "exactly the maximal implied run and never the root. PARTIAL: absence of exceptions in the phase "
-             "handlers and the skeleton clause are decided by parsing tag soup, every dispatch-table tag in every "
-             "table/select/foreign context, nesting to depth 3 000 (thorough 10 000), random bytes, with both "
-             "builders, namespacing on/off, document and fragment mode with 30 containers, scripting on/off.",
+             "exactly the maximal implied run and never the root; the start/end tag dispatch tables of all 23 phases "
+             "equal the fixed copy the tree-construction model was written against (a handler dropped or moved is a "
+             "broken obligation). PARTIAL: absence of exceptions and non-termination in the phase handlers and the "
+             "skeleton clause are decided by parsing tag soup, every dispatch-table tag in every insertion mode and "
+             "fragment context, end tags with attributes, re-open shapes <X><blocker><X>, foreign elements carrying "
+             "HTML element names followed by integration points (14 112 inputs), nesting to depth 3 000 (thorough "
+             "10 000), random bytes, with both builders, namespacing on/off, document and fragment mode with 30 "
+             "containers, scripting on/off; one listed finding (children of html after a frameset).",
         design_ref="DESIGN.md 3 C03",
-        note="two crashes repaired in /repo (recursion, table EOF assertion).",
+        note="six totality defects repaired in /repo (recursion, table EOF assertion, AAA insertBefore(None), "
+             "resetInsertionMode assertion, clear-stack non-termination/assertion, frameset pop loop).",
         technique="Coq proof (rank function over an extracted graph, list induction) + translator + "
                   "totality/skeleton run on the real parser"),
     "C01": dict(
@@ -337,10 +342,10 @@ CLAIMED = {
              "agreement on generated markup (deviation switches off); the property is decided against the same model "
              "with the WHATWG switches on, every difference classified by flipping one switch at a time. Theorems: "
              "all 24 tables and the 23 dispatch tables re-read from the source equal the fixed copies TC was written "
-             "against; the scope walk always stops. PARTIAL: no theorem relates TC to the standard (it IS the "
-             "transcription) and the agreement implementation = TC is tested, not proved; 5 listed findings.",
+             "against; the scope walk always stops and is true exactly when an HTML element with the target name comes before any stop element; clearing the stack back to a table context is total and pops exactly down to the topmost HTML stop element. PARTIAL: no theorem relates TC to the standard (it IS the "
+             "transcription) and the agreement implementation = TC is tested, not proved; 4 listed findings.",
         design_ref="DESIGN.md 3 C01",
-        note="five deviations repaired in /repo; 189 parser functions hash-pinned.",
+        note="ten deviations and defects repaired in /repo; 189 parser functions hash-pinned.",
         technique="Coq model + table-equality theorems + differential correspondence on trees (extracted OCaml)"),
 }
 
